@@ -806,14 +806,27 @@ def check_accessor_invariants(F, r2):
         if [q for q in vp if not q.complete]:
             r2.fail((val, "not-evaluable"), "%s: a path could not be evaluated to the end" % short(val))
         good = bool(oks)
+        def no_more_sep(decs):
+            """rest(s, sep, k) is segment k itself on a path that decided there is no (k+1)th segment"""
+            subs = []
+            for (a, c) in decs:
+                if a[0] == "hasseg" and c is False and isinstance(a[3], int) and a[3] >= 1:
+                    subs.append((("rest", a[1], a[2], a[3] - 1), ("seg", a[1], a[2], a[3] - 1)))
+            out = []
+            for (a, c) in decs:
+                for x, y in subs:
+                    a = _subst(a, x, y)
+                out.append((a, c))
+            return out
         for pq in panics:
             conj = []
             for (a, c, _, _) in pq.decisions:
                 for ra, rv in maps:
                     a = _subst(a, ra, rv)
                 conj.append((a, c))
+            conj = no_more_sep(conj)
             for vq in oks:
-                vdec = {a: c for (a, c, _, _) in vq.decisions}
+                vdec = dict(no_more_sep([(a, c) for (a, c, _, _) in vq.decisions]))
                 contradicted = False
                 for a, c in conj:
                     if a in vdec and vdec[a] != c:
